@@ -32,7 +32,7 @@ func init() {
 	core.Register(&core.Property{
 		ID:    "C11",
 		Level: "model_checking",
-		Rule: "universe = 21 import-editing changes (7 of them listing two or three imports in one change, add, add named, delete, rename path, rename name, name an unnamed import, drop a name, metavariable-named rename on named and unnamed file imports, match-only, replace by another package, paths ending in /v1) x every subset (<=3, thorough <=4) of other imports {named, blank, dot, plain, commented} x layout {grouped, single declarations, two blocks} x position of the affected import x remaining uses of the affected package name {none, plain selector elsewhere, chained selector, inside a call argument, only at the rewritten site, only through a shadowing parameter / local variable} x {API, CLI, CLI --skip-import-processing}. " +
+		Rule: "universe = 25 import-editing changes (11 of them listing two or three imports in one change, add, add named, delete, rename path, rename name, name an unnamed import, drop a name, metavariable-named rename on named and unnamed file imports, match-only, replace by another package, paths ending in /v1) x every subset (<=3, thorough <=4) of other imports {named, blank, dot, plain, commented} x layout {grouped, single declarations, two blocks} x position of the affected import x remaining uses of the affected package name {none, plain selector elsewhere, chained selector, inside a call argument, only at the rewritten site, only through a shadowing parameter / local variable} x {API, CLI, CLI --skip-import-processing}. " +
 			"Relational oracle from the statement over the sets of (name, path) of input and output. non-trivial = the change applies",
 		Assumptions: []string{
 			"an import on a context line (matched, neither added nor deleted) that is no longer referred to is unspecified: no assertion",
@@ -89,6 +89,11 @@ func c11Patches() []c11Patch {
 		{"two:delete+delete-second-used", &model.Change{Kind: "expr", Meta: xm, Imports: []model.Import{imp("-", "", "old/r"), imp("-", "", "old/p")}, Lines: model.L("-r.Foo(p.Wrap(x))", "+foo(x)")}, `"old/r";"old/p"`, "p", "r.Foo(p.Wrap(1))"},
 		{"two:metavar+metavar", &model.Change{Kind: "expr", Meta: []model.MetaVar{{Name: "x", Kind: "expression"}, {Name: "n", Kind: "identifier"}, {Name: "m", Kind: "identifier"}}, Imports: []model.Import{imp("-", "n", "old/p"), imp("+", "n", "new/p"), imp(" ", "m", "ctx/http")}, Lines: model.L("-n.Foo(x)", "+n.Bar(x, m.Client)")}, `"old/p";hh "ctx/http"`, "p", "n.Foo(hh.Client)"},
 		// blank and dot imports on a '-' line: nothing refers to them by name afterwards, they must be gone
+		// two '-' imports named by identifier metavariables (spelled like the packages, as the documentation does), the file naming none, one or both of them
+		{"two:metadel+metadel/uu", c11TwoMetaDel(), `"old/p";"old/r"`, "p", "p.Foo(r.Wrap(1))"},
+		{"two:metadel+metadel/un", c11TwoMetaDel(), `"old/p";rr "old/r"`, "p", "p.Foo(rr.Wrap(1))"},
+		{"two:metadel+metadel/nu", c11TwoMetaDel(), `pp "old/p";"old/r"`, "pp", "pp.Foo(r.Wrap(1))"},
+		{"two:metadel+metadel/nn", c11TwoMetaDel(), `pp "old/p";rr "old/r"`, "pp", "pp.Foo(rr.Wrap(1))"},
 		{"delete-blank", &model.Change{Kind: "expr", Meta: xm, Imports: []model.Import{imp("-", "_", "old/p")}, Lines: model.L("-foo(x)", "+bar(x)")}, `_ "old/p"`, "p", "foo(1)"},
 		{"delete-dot", &model.Change{Kind: "expr", Meta: xm, Imports: []model.Import{imp("-", ".", "old/p")}, Lines: model.L("-Foo(x)", "+foo(x)")}, `. "old/p"`, "p", "Foo(1)"},
 		{"replace-blank", &model.Change{Kind: "expr", Meta: xm, Imports: []model.Import{imp("-", "_", "old/p"), imp("+", "_", "new/p")}, Lines: model.L("-foo(x)", "+bar(x)")}, `_ "old/p"`, "p", "foo(1)"},
@@ -97,6 +102,12 @@ func c11Patches() []c11Patch {
 		{"replace-on-decl-pattern", &model.Change{Kind: "decl", Imports: []model.Import{imp("-", "", "old/p"), imp("+", "", "new/q")}, Lines: model.L("-func site() {", "+func site2() {", " DOTS_1", " }")}, `"old/p"`, "p", "foo(1)"},
 		{"add-v1-next-to-api", &model.Change{Kind: "expr", Meta: xm, Imports: []model.Import{imp(" ", "", "legacy/api"), imp("+", "", "new/api/v1")}, Lines: model.L("-api.Foo(x)", "+v1.Foo(x)")}, `"legacy/api"`, "api", "api.Foo(1)"},
 	}
+}
+
+func c11TwoMetaDel() *model.Change {
+	return &model.Change{Kind: "expr", Meta: []model.MetaVar{{Name: "x", Kind: "expression"}, {Name: "p", Kind: "identifier"}, {Name: "r", Kind: "identifier"}},
+		Imports: []model.Import{{Tag: "-", Name: "p", Path: "old/p"}, {Tag: "-", Name: "r", Path: "old/r"}, {Tag: "+", Path: "new/q"}},
+		Lines:   model.L("-p.Foo(r.Wrap(x))", "+q.Foo(x)")}
 }
 
 var c11Others = []string{`nn "x/named"`, `_ "x/blank"`, `. "x/dot"`, `"x/plain"`, `"x/commented" // why it is here`, `"C"`}
